@@ -24,4 +24,23 @@ mod verif_native2 {
         assert!(c.send_rate <= c.max_send_rate, "rate {} above the ceiling {}", c.send_rate, c.max_send_rate);
         assert!(c.send_rate <= before, "rate increased on a no-feedback expiry: {} -> {}", before, c.send_rate);
     }
+
+    // C14: the RTT estimate is the 0.9/0.1 moving average of the samples (first sample taken as is), at millisecond scale too
+    #[test]
+    fn verif_c14_rtt_is_the_moving_average() {
+        for samples in [vec![0u64, 4, 4, 4, 4, 4, 4, 4], vec![5, 0, 0, 0, 0, 0, 0, 0], vec![100, 120, 80, 100, 3, 250]] {
+            let mut c = SendRateComp::new(1_000_000);
+            c.notify_frame_sent(0);
+            let mut expect: Option<f64> = None;
+            let mut now = 0u64;
+            for &ms in samples.iter() {
+                now += 500;
+                c.step(now, Some(FeedbackData { rtt_ms: ms, receive_rate: 100_000, loss_rate: 0.0, rate_limited: false }), |_| {});
+                let s = ms as f64 / 1000.0;
+                expect = Some(match expect { None => s, Some(r) => 0.9 * r + 0.1 * s });
+                let got = c.rtt_s().unwrap();
+                assert!((got - expect.unwrap()).abs() < 1e-12, "samples {:?}: rtt estimate {} s, moving average {} s", samples, got, expect.unwrap());
+            }
+        }
+    }
 }
